@@ -53,15 +53,19 @@ let fixture (extra_globals : (sb_name * sb_val) list) (recv_ty : sb_name) (obj_f
 
 (* [sbfr_top]: is the frame on top of the frame stack sandboxed while the user's code runs - from the source facts
    (frame declarations of GetFilterTargets/FilteredAddTarget/EvaluateFilter, ProcessEvent, Push, ExecuteScriptHelper) *)
-let frame_of mode =
+let frame_of_o mode (outer : bool list) =
   if mode = "console" then
-    { sbfr_sandboxed = true; sbfr_top = sb_cur_console_top; sbfr_self = SbVObj (ty_dict, SbLocal O);
+    { sbfr_sandboxed = sb_cur_console_flag outer; sbfr_top = sb_cur_console_top outer; sbfr_self = SbVObj (ty_dict, SbLocal O);
       sbfr_locals = Some (SbVObj (ty_dict, SbLocal O)) }
   else if mode = "filter" || mode = "filterperm" then
-    { sbfr_sandboxed = true; sbfr_top = sb_cur_filter_top; sbfr_self = SbVObj (ty_ns, SbLocal O); sbfr_locals = None }
+    { sbfr_sandboxed = sb_cur_filter_flag outer; sbfr_top = sb_cur_filter_top outer; sbfr_self = SbVObj (ty_ns, SbLocal O); sbfr_locals = None }
   else
-    { sbfr_sandboxed = true; sbfr_top = (if mode = "inbox" then sb_cur_inbox_top else sb_cur_event_top);
+    { sbfr_sandboxed = (if mode = "inbox" then sb_cur_inbox_flag outer else sb_cur_event_flag outer);
+      sbfr_top = (if mode = "inbox" then sb_cur_inbox_top outer else sb_cur_event_top outer);
       sbfr_self = SbVObj (ty_ns, SbLocal O); sbfr_locals = Some (SbVObj (ty_dict, SbLocal O)) }
+(* [outer]: the Sandboxed flags of the script frames already on the thread's stack when the entry point is called (probe token
+   outer=1: a non-sandboxed ScriptFrame, outer=2: the frame of a native run through Function::Invoke - also non-sandboxed) *)
+let outer_of (a : args) : bool list = if num a "outer" 0 <> 0 then [ false ] else []
 
 (* ---- statement forms: AST with the sub-expression [m] where the generator puts the marker resp. a plain value ---- *)
 let glob = SbGetScope SbScopeGlobal
@@ -228,8 +232,8 @@ let fixture_w (lhs : String.t) =
     sbs_calls = []; sbs_reads = []; sbs_choices = List.init 12 (fun _ -> { sbc_b = false; sbc_v = ret }) }
 
 (* ConsoleHandler::ExecuteScriptHelper: frame.Locals = frame.Self = the session's dictionary, which outlives the request *)
-let frame_of_w mode =
-  let fr = frame_of mode in
+let frame_of_w mode outer =
+  let fr = frame_of_o mode outer in
   if mode = "console" then
     let l = SbVObj (ty_dict, SbShared (nat_of_int 9)) in
     { fr with sbfr_self = l; sbfr_locals = Some l }
@@ -290,7 +294,9 @@ let probe_model (a : args) : (sb_expr * sb_st) option =
     Some (SbFunctionCall (callee, args), fixture extra rty [ (N0, SbVOpaque) ])
   | "ctor" ->
     let t = nm (hexs a "ty") in
-    Some ((if mk then SbFunctionCall (var "sbtype", [ marker ]) else SbFunctionCall (var "sbtype", [])),
+    (* T(), T(1), T("a", 1): VMOps::ConstructorCall -> type->Instantiate(args) *)
+    Some ((if mk then SbFunctionCall (var "sbtype", [ marker ])
+           else SbFunctionCall (var "sbtype", List.init (num a "nargs" 0) (fun _ -> lnum))),
           fixture [ (nm "sbtype", SbVType t) ] ty_dict [])
   | "read" ->
     let t = nm (hexs a "ty") and f = hexs a "field" in
@@ -321,7 +327,7 @@ let op_sb_probe a =
   match probe_model a with
   | None -> emit (Printf.sprintf "sb_probe id=%s mode=%s MODEL-UNKNOWN-PROBE" id mode)
   | Some (e, s) ->
-    let fr = if str a "kind" "" = "wpos" then frame_of_w mode else frame_of mode in
+    let fr = if str a "kind" "" = "wpos" then frame_of_w mode (outer_of a) else frame_of_o mode (outer_of a) in
     let (r, s') = sb_eval sb_cur_facts (nat_of_int 40) fr e s in
     let changed = (s'.sbs_shared <> s.sbs_shared) || (s'.sbs_extern <> s.sbs_extern) in
     (* the console handler serialises the returned object with all its fields: modelled here, outside the evaluator *)
@@ -372,7 +378,7 @@ let oracle_c19 script trace =
                 | "wpos" -> (if str a "w" "" = "set" then "set-" ^ str a "op" "" ^ "-" ^ str a "lhs" "" else str a "w" "")
                             ^ "@" ^ str a "form" "" ^ (if str a "ctx" "none" = "none" then "" else "." ^ str a "ctx" "")
                 | "call" -> "call:" ^ hexs a "fn"
-                | "ctor" -> "ctor:" ^ hexs a "ty"
+                | "ctor" -> "construct:" ^ hexs a "ty"
                 | "read" -> "read:" ^ hexs a "ty" ^ "." ^ hexs a "field"
                 | "using" -> "using:" ^ hexs a "ty" ^ "." ^ hexs a "field"
                 | "global" -> "global:" ^ hexs a "name"
